@@ -34,6 +34,7 @@ type HJob struct {
 	Rounds int               `json:"rounds,omitempty"`
 	WatchS int               `json:"watch_s,omitempty"`
 	Files  map[string]string `json:"files,omitempty"`
+	Pre    []HReq            `json:"pre,omitempty"`
 }
 
 type HResp struct {
@@ -45,6 +46,8 @@ type HResp struct {
 	Dropped bool   `json:"dropped,omitempty"`
 	Unsent  string `json:"unsent,omitempty"`
 	Trunc   bool   `json:"trunc,omitempty"`
+	T0      int64  `json:"t0,omitempty"`
+	T1      int64  `json:"t1,omitempty"`
 }
 
 type HOut struct {
@@ -58,6 +61,7 @@ type HOut struct {
 	Stacks   []string `json:"stacks,omitempty"`
 	ReqIndex int      `json:"req_index,omitempty"`
 	Gor      int      `json:"goroutines,omitempty"`
+	Pre      []HResp  `json:"pre,omitempty"`
 	// filled by the parent when the worker process died while running this job
 	Died  string `json:"died,omitempty"`
 	Death string `json:"death_excerpt,omitempty"`
@@ -82,6 +86,7 @@ func httpWorkerBin(race bool) (string, error) {
 	}
 	p, err := mon.BuildOverlayTest("cmd/glyph", name, map[string]string{
 		"zz_verif_worker_test.go": filepath.Join(mon.SrcDir(), "overlays", "cmdglyph_worker_test.go"),
+		"zz_verif_dev_test.go":    filepath.Join(mon.SrcDir(), "overlays", "cmdglyph_dev_test.go"),
 	}, flags...)
 	if err == nil {
 		httpBuilt[name] = p
